@@ -465,10 +465,46 @@ func genC12State(r *core.Rng) any {
 	}
 }
 
+// genC12StateImage: the state stratum with raster images between the draws and fills that alternate
+// between translucent and opaque: a writer that saves and restores the graphics state around an image
+// must not believe afterwards that what it set inside is still in force.
+func genC12StateImage(r *core.Rng) any {
+	c := genC12State(r).(*c12Case)
+	c.Kind = "state-image"
+	var out []c12Draw
+	for k, d := range c.Draws {
+		if d.Fill == nil && r.Chance(0.6) {
+			d.Fill = []int{r.Intn(256), r.Intn(256), r.Intn(256), 255}
+		}
+		if d.Fill != nil {
+			d.Fill = append([]int(nil), d.Fill...)
+			d.Fill[3] = core.PickI(r, []int{255, 255, 128, 64})
+		}
+		if r.Chance(0.5) {
+			d.Stroke = nil
+			if d.Fill == nil {
+				d.Fill = []int{r.Intn(256), r.Intn(256), r.Intn(256), core.PickI(r, []int{255, 128})}
+			}
+		}
+		out = append(out, d)
+		if k < len(c.Draws)-1 && r.Chance(0.6) {
+			img := c12Draw{c14Draw: c14Draw{X: c.W * r.Range(0.05, 0.2), Y: c.H * r.Range(0.05, 0.2), Z: 0, Shape: "image", Size: 3}}
+			img.Img = []int{r.IntRange(2, 5), r.IntRange(2, 5)}
+			img.Res = core.PickF(r, []float64{1, 2})
+			out = append(out, img)
+		}
+	}
+	c.Draws = out
+	return c
+}
+
 func genC12(kind string) func(r *core.Rng) any {
 	return func(r *core.Rng) any {
 		for {
 			b := genC14Once("mixed", r)
+			if kind == "defaults" && r.Bool() {
+				b = genC14Once("rule", r) // shapes on which the fill rules differ
+			}
 			if kind == "selfx-stroke" {
 				b = genC14Once("rule", r)
 				for i := range b.Draws {
@@ -498,6 +534,23 @@ func genC12(kind string) func(r *core.Rng) any {
 					x.Img = []int{r.IntRange(2, 7), r.IntRange(2, 7)}
 					x.Res = core.PickF(r, []float64{0.5, 1, 2, r.Range(0.3, 3)})
 					x.Stroke, x.Fill = nil, nil
+				}
+				if kind == "defaults" {
+					// the values a back-end may leave out because they are its format's defaults: opaque black
+					// and white paints, width 1
+					if x.Fill != nil && r.Chance(0.6) {
+						x.Fill = core.PickI2(r, [][]int{{0, 0, 0, 255}, {0, 0, 0, 255}, {255, 255, 255, 255}, {0, 0, 0, 128}})
+					}
+					if x.Fill != nil && x.Stroke == nil && r.Chance(0.5) {
+						x.Stroke = []int{r.Intn(256), r.Intn(256), r.Intn(256), 255}
+						x.Width = r.Range(0.3, 2)
+					}
+					if x.Stroke != nil && r.Chance(0.4) {
+						x.Stroke = core.PickI2(r, [][]int{{0, 0, 0, 255}, {255, 255, 255, 255}})
+					}
+					if x.Stroke != nil && r.Chance(0.3) {
+						x.Width = 1
+					}
 				}
 				if x.Stroke != nil && x.Shape == "selfx" && kind != "selfx-stroke" {
 					// strokes of closed self-crossing contours lose lobes in Path.Stroke (finding F-C04-closed-selfx),
@@ -1771,6 +1824,8 @@ func init() {
 			{Name: "dash", Quick: 300, Thorough: 8000, Gen: genC12("dash")},
 			{Name: "ps", Quick: 300, Thorough: 8000, Gen: genC12("ps")},
 			{Name: "state", Quick: 800, Thorough: 10000, Gen: genC12State},
+			{Name: "state-image", Quick: 500, Thorough: 10000, Gen: genC12StateImage, Note: "images between draws whose fills alternate between translucent and opaque"},
+			{Name: "defaults", Quick: 500, Thorough: 10000, Gen: genC12("defaults"), Note: "paints and widths that are defaults of the output formats (opaque black and white, width 1), filled and stroked, on shapes where the fill rules differ"},
 			{Name: "selfx-stroke", Quick: 200, Thorough: 4000, Gen: genC12("selfx-stroke"), WitnessOnly: true, Note: "strokes of closed self-crossing or nested contours: Path.Stroke loses lobes (F-C04-closed-selfx), so the rasterizer and the outline fall-backs differ from native strokes"},
 		},
 		NewCase:  func() any { return &c12Case{} },
